@@ -101,6 +101,18 @@ def gen_device(rng: random.Random, want: str = "any") -> dict:
         reusable=rng.random() < 0.4,
         max_seq=rng.choice([None, None, None, 2000, 6000, 20000]),
     )
+    if want == "maxseq":
+        # a device whose maximum sequence duration is reached within a few calls, with local channels
+        # that take time to retarget and modulated channels that have fall times: every kind of call is
+        # then tried right at the limit (delay, target, align, EOM buffers, pulses)
+        spec["max_seq"] = rng.choice([300, 600, 1000, 1500])
+        if not any(c["local"] for c in chans):
+            chans[0] = gen_channel(rng, rng.choice(["rydberg", "raman"]), True, virtual)
+        for c in chans:
+            if c["local"] and rng.random() < 0.8:
+                c["min_retarget_interval"], c["fixed_retarget_t"] = rng.choice([(220, 0), (220, 100), (100, 220), (400, 0)])
+            if c.get("mod_bandwidth") is None and rng.random() < 0.6:
+                c["mod_bandwidth"] = rng.choice([2, 4, 10])
     return spec
 
 
